@@ -106,6 +106,25 @@ def generate(repo: str) -> tuple[str, str]:
         raise TranslateError("schedule: filters are not folded over list(binding_config.targets) in order")
     if not tasks_in_order:
         raise TranslateError("schedule: one _process_target task per target, created in list order, not found")
+    # ---- DefaultScheduler._get_binding_filter -------------------------------------------------
+    fn = parse_function(sched, "_get_binding_filter", "DefaultScheduler")
+    if len(fn.body) != 2 or not isinstance(fn.body[0], ast.If) or not isinstance(fn.body[1], ast.Return) or fn.body[0].orelse:
+        raise TranslateError("_get_binding_filter: expected `if <key> not in self.binding_filter_map: …; return self.binding_filter_map[<key>]`")
+    test = fn.body[0].test
+    if not (isinstance(test, ast.Compare) and len(test.ops) == 1 and isinstance(test.ops[0], ast.NotIn)
+            and ast.unparse(test.comparators[0]) == "self.binding_filter_map"):
+        raise TranslateError("_get_binding_filter: membership test on self.binding_filter_map not found")
+    key_node = test.left
+    key_src = ast.unparse(key_node)
+    assign = fn.body[0].body
+    if len(assign) != 1 or not isinstance(assign[0], ast.Assign) or ast.unparse(assign[0].targets[0]) != f"self.binding_filter_map[{key_src}]":
+        raise TranslateError("_get_binding_filter: the filter is not stored under the key that was tested")
+    built = ast.unparse(assign[0].value).replace(" ", "").replace("\n", "")
+    if built != "binding_filter_classes[config.type](config.name,**config.config)":
+        raise TranslateError(f"_get_binding_filter: filter is built as `{built}`")
+    if ast.unparse(fn.body[1].value) != f"self.binding_filter_map[{key_src}]":
+        raise TranslateError("_get_binding_filter: returns another entry than the one tested")
+    cache_key = ExprTranslator({"config.name": "name", "config.type": "type"}).tr(key_node)
     text = f"""/-! GENERATED by harness/sfv/translate/matchguards.py from streamflow/deployment/filter/matching.py and
     streamflow/scheduling/scheduler.py — do not edit. -/
 namespace SFV.Gen.Match
@@ -124,6 +143,8 @@ def collectsInOrder : Bool := {"true" if ordered else "false"}
 def dropsDuplicates : Bool := {"true" if dedups else "false"}
 /-- schedule(): filters folded in order over list(binding_config.targets); one task per target in list order -/
 def tasksInTargetOrder : Bool := true
+/-- _get_binding_filter: key of `binding_filter_map` under which a filter object is cached and looked up -/
+def filterCacheKey (name type : Nat) : Nat := {cache_key}
 
 end SFV.Gen.Match
 """
